@@ -43,6 +43,8 @@ type TransferPlan struct {
 	MagnetTiers  [][]string `json:"magnet_tiers,omitempty"`
 	// DiskWriteLatMax stretches the window in which a piece write is in flight.
 	DiskWriteLatMax time.Duration `json:"disk_write_lat_max,omitempty"`
+	// Limits: the C17 monitor and its extra actors.
+	Limits *LimitsSpec `json:"limits,omitempty"`
 	// WriteErrAt: the n-th data write (counted over the run) fails with ENOSPC before FaultsStop.
 	WriteErrAt []int `json:"write_err_at,omitempty"`
 	// FaultsStop: after this instant no new faults are injected and byzantine peers are shut
@@ -528,6 +530,10 @@ func RunTransfer(env *Env, plan *TransferPlan) {
 		}
 	}
 
+	var limMon *limitsMon
+	if plan.Limits != nil {
+		limMon = w.startLimits(sutAddr)
+	}
 	// completion watcher
 	compC := w.tor.NotifyComplete()
 	go func() {
@@ -635,6 +641,9 @@ func RunTransfer(env *Env, plan *TransferPlan) {
 		w.checkComplete("final")
 	}
 	env.NonTriv = w.writesBegun > 0 || plan.PreSeeded
+	if limMon != nil {
+		limMon.finish()
+	}
 	env.SigAdd("np=%d nf=%d pl=%d peers=%d ws=%d", T.NumPieces, len(T.Files), T.PieceLen, len(plan.Peers), len(plan.Webseeds))
 	simrt.FreezeTrace()
 	for _, a := range w.peers {
